@@ -292,7 +292,7 @@ class Symbols:
                 r = self.resolve_expr(owner.module, value, scope=owner.node)
                 if r is not None:
                     return r
-            return ('value', owner.module, value)
+            return ('value', owner.module, value, owner)
         if base[0] == 'module':
             inner = self.lookup(base[1], attr)
             if inner is not None:
@@ -383,7 +383,7 @@ class Symbols:
             if r is not None and not isinstance(r, ClassInfo) and r[0] == 'value' and r[2] is not None:
                 if r[2] is expr:
                     raise KeyError(ast.unparse(expr))
-                return self.const(r[1], r[2], None, depth + 1)
+                return self.const(r[1], r[2], r[3] if len(r) > 3 else None, depth + 1)
             raise KeyError(ast.unparse(expr))
         if isinstance(expr, ast.UnaryOp) and isinstance(expr.op, ast.USub):
             return -self.const(mod, expr.operand, scope, depth + 1)
